@@ -7,27 +7,27 @@ import (
 
 // SParams tunes the online history generator of the stream core.
 type SParams struct {
-	MaxOps     int
-	MaxVbs     int     // size of the assigned range
-	WAck       float64 // weights
-	WDeliver   float64
-	WSave      float64
-	WCrash     float64
-	WReb       float64
-	WEnd       float64
-	WScrape    float64
-	WClose     float64
-	PMetaKey   float64 // probability that a document key is under a reserved prefix
-	PSys       float64 // probability that a delivery is a system event / seqno advanced
-	PAckInOrd  float64 // acknowledgements in delivery order
-	PMalformed float64 // an event outside its snapshot
-	PSaveFail  float64
+	MaxOps         int
+	MaxVbs         int     // size of the assigned range
+	WAck           float64 // weights
+	WDeliver       float64
+	WSave          float64
+	WCrash         float64
+	WReb           float64
+	WEnd           float64
+	WScrape        float64
+	WClose         float64
+	PMetaKey       float64 // probability that a document key is under a reserved prefix
+	PSys           float64 // probability that a delivery is a system event / seqno advanced
+	PAckInOrd      float64 // acknowledgements in delivery order
+	PMalformed     float64 // an event outside its snapshot
+	PSaveFail      float64
 	POutOfRangeReb float64 // a rebalance moves the range so that old contexts become foreign
-	BigSeq     bool
-	Cfg        *SCfg
-	Initial    map[uint16]SDoc
-	NoInitial  bool
-	Serial     bool
+	BigSeq         bool
+	Cfg            *SCfg
+	Initial        map[uint16]SDoc
+	NoInitial      bool
+	Serial         bool
 }
 
 func DefaultSParams() SParams {
@@ -36,12 +36,12 @@ func DefaultSParams() SParams {
 }
 
 type vbGen struct {
-	next     uint64 // next sequence number the server will send
-	snapEnd  uint64 // end of the snapshot in force (0 = none)
-	inSnap   bool
-	maxEver  uint64
-	uuid     uint64
-	ended    bool
+	next    uint64 // next sequence number the server will send
+	snapEnd uint64 // end of the snapshot in force (0 = none)
+	inSnap  bool
+	maxEver uint64
+	uuid    uint64
+	ended   bool
 }
 
 const casBase = uint64(1700000000) * 1000000000
@@ -114,6 +114,8 @@ func GenRun(rng *rand.Rand, p SParams) *SHistory {
 	open, balancing, failed, everOpened := false, false, false, false
 	first, last := uint16(0), uint16(0)
 	inflight := false
+	queued := 0
+	saveSess, sess := 0, 0 // the save lock belongs to the checkpoint object of a session: queueing is only meaningful within it
 	var dirtyOfSave []uint16
 
 	server := func(f, l uint16, allowRoll bool) *SServer {
@@ -136,6 +138,11 @@ func GenRun(rng *rand.Rand, p SParams) *SHistory {
 		return sv
 	}
 	afterOpen := func(outs []SOut, sv *SServer) {
+		for _, o := range outs {
+			if o.Kind == "callback" && o.Name == "BeforeStreamStart" {
+				sess++
+			}
+		}
 		// the server resumes each vBucket right after the requested position (or earlier after a rollback)
 		for _, o := range outs {
 			if o.Kind == "openreq" {
@@ -304,11 +311,8 @@ func GenRun(rng *rand.Rand, p SParams) *SHistory {
 				exec(SOp{Kind: "close", Cancel: rng.Intn(2) == 0})
 				open = false
 				// a closed stream is only ever followed by a restart of the process
-				if inflight {
-					exec(SOp{Kind: "saveend", Ok: rng.Intn(2) == 0})
-					inflight = false
-				}
 				exec(SOp{Kind: "crash"})
+				inflight, queued = false, 0
 				outstanding, acked, nCtx = nil, nil, 0
 			})
 		}
@@ -352,6 +356,7 @@ func GenRun(rng *rand.Rand, p SParams) *SHistory {
 					if len(outs) == 1 && outs[0].Kind == "metasave" {
 						inflight = true
 						dirtyOfSave = outs[0].Dirty
+						saveSess = sess
 					}
 				})
 			} else {
@@ -360,13 +365,27 @@ func GenRun(rng *rand.Rand, p SParams) *SHistory {
 						exec(SOp{Kind: "savewrite", Vb: dirtyOfSave[rng.Intn(len(dirtyOfSave))]})
 						return
 					}
-					exec(SOp{Kind: "saveend", Ok: rng.Float64() >= p.PSaveFail})
+					outs := exec(SOp{Kind: "saveend", Ok: rng.Float64() >= p.PSaveFail})
 					inflight = false
+					for _, o := range outs {
+						if o.Kind == "metasave" { // a queued Save() took over
+							inflight, dirtyOfSave = true, o.Dirty
+							queued--
+						}
+					}
 				})
+				if queued < 2 && saveSess == sess {
+					add(p.WSave*0.5, func() {
+						outs := exec(SOp{Kind: "savequeue"})
+						if len(outs) == 0 {
+							queued++
+						}
+					})
+				}
 			}
 			add(p.WCrash, func() {
 				exec(SOp{Kind: "crash"})
-				open, balancing, inflight = false, false, false
+				open, balancing, inflight, queued = false, false, false, 0
 				outstanding, acked, nCtx = nil, nil, 0
 			})
 		}
@@ -412,13 +431,17 @@ func GenRun(rng *rand.Rand, p SParams) *SHistory {
 		sv := server(first, last, false)
 		exec(SOp{Kind: "rebopen", First: first, Last: last, Sv: sv})
 	}
-	if inflight && !failed {
-		exec(SOp{Kind: "saveend", Ok: true})
+	for k := 0; inflight && !failed && k < 4; k++ {
+		outs := exec(SOp{Kind: "saveend", Ok: true})
+		inflight = false
+		for _, o := range outs {
+			if o.Kind == "metasave" {
+				inflight = true
+			}
+		}
 	}
 	h.Digest = d.Digest()
-	if d.Store.InFlight() {
-		d.Store.Release(false)
-	}
+	d.drainSaves()
 	h.Faith = d.Faith
 	return h
 }
